@@ -396,6 +396,14 @@ func (m *pmodel) evalBool(v ssa.Value, f *frame, p *pstate, prev *ssa.BasicBlock
 				return tri(p.st["ownExists"])
 			}
 		}
+		// boolean member of the result tuple of an inlined call: what the callee returned on this path
+		if tc, ok := x.Tuple.(*ssa.Call); ok {
+			if rv, ok := p.retvals[m.valKey(tc, f)]; ok && x.Index < len(rv) && rv[x.Index].v != nil && isBool(rv[x.Index].v.Type()) {
+				if t := m.evalBool(rv[x.Index].v, rv[x.Index].f, p, nil); t != tU {
+					return t
+				}
+			}
+		}
 	case *ssa.Phi:
 		if j, ok := p.phiEdge[m.valKey(x, f)]; ok {
 			return m.evalBool(x.Edges[j], f, p, nil)
@@ -419,6 +427,11 @@ func (m *pmodel) ownRecordPtr(v ssa.Value, f *frame, p *pstate, d int) tri {
 	switch x := v.(type) {
 	case *ssa.Extract:
 		switch t := x.Tuple.(type) {
+		case *ssa.Call:
+			// k-th result of an inlined helper (`c, isNew := s.record(k)`)
+			if rv, ok := p.retvals[m.valKey(t, f)]; ok && x.Index < len(rv) && rv[x.Index].v != nil {
+				return m.ownRecordPtr(rv[x.Index].v, rv[x.Index].f, p, d+1)
+			}
 		case *ssa.Lookup:
 			if m.isComplaintsMap(t.X) && x.Index == 0 {
 				return m.keyClass(p, m.canon(t.Index, f, 0))
@@ -479,6 +492,12 @@ func (m *pmodel) resolvePtr(v ssa.Value, f *frame, p *pstate, d int) ssa.Value {
 	case *ssa.Call:
 		if rv, ok := p.retvals[m.valKey(x, f)]; ok && len(rv) == 1 && rv[0].v != nil {
 			return m.resolvePtr(rv[0].v, rv[0].f, p, d+1)
+		}
+	case *ssa.Extract:
+		if t, isCall := x.Tuple.(*ssa.Call); isCall {
+			if rv, ok := p.retvals[m.valKey(t, f)]; ok && x.Index < len(rv) && rv[x.Index].v != nil {
+				return m.resolvePtr(rv[x.Index].v, rv[x.Index].f, p, d+1)
+			}
 		}
 	}
 	return v
